@@ -189,7 +189,7 @@ def run(ctx, tier: str, seed: int) -> None:
     G.run_cases(ctx, "chain-all-fault-subsets", chain_cases(valid, cers, invalids), check_case, MODULE, RULE,
                 exhaustive=False,
                 bound=f"group > segment > [free text, pool of 2]; every base expression triple from {len(valid)} valid "
-                      f"expressions x every non-empty subset of the 5 expression slots faulted (3 invalid expressions, "
+                      f"expressions x every non-empty subset of the 5 expression slots faulted ({len(invalids)} invalid expressions, "
                       f"rotated); content evaluation result ({len(cers)}) and flag rotated, not crossed")
     small = valid[:5] if not thorough else valid[:7]
     G.run_cases(ctx, "groups-all-fault-subsets", chain_groups(small, cers, invalids), check_case, MODULE, RULE,
